@@ -15,8 +15,8 @@ from harness import pyast_wire as W
 
 META = {
     "id": "C02",
-    "technique": "Coq proof (soundness of a line-by-line model of _infer_expr_type w.r.t. the reference Python expression semantics, by induction over expressions and over nested list comprehensions with their var_types bracket; join / declaration / hoisting / signature-alias lemmas; refutation witnesses by vm_compute) + extracted-model correspondence with the real _infer_expr_type/_cpp_type/_merge_* and with the declaration lines of the emitted C++ + firmware-vs-CPython value oracle",
-    "level_text": "Theorems C02_* (coq/Props/C02.v) are proved for all expressions / assignment sequences about Gallina models (coq/Lang/Infer.v, Decl.v) of the type-label layer of transpile/parser.py; _partial theorems carry an executable guard, each guard clause has a _refuted witness. The models are run against the real functions (direct calls, exact label and mutated var_types) and against the declared C types in the emitted sketch; the property itself is tested on compiled firmware (mock core) against CPython for programs inside the guard.",
+    "technique": "Coq proof (soundness of a line-by-line model of _infer_expr_type w.r.t. the reference Python expression semantics, by induction over expressions and over nested list comprehensions with their var_types bracket; join / declaration / hoisting / signature-alias lemmas; a reference statement semantics with a path oracle and, by mutual induction over statements / blocks / branches, the covering theorem for if / elif / else, while, for, tuple assignment, the main loop and function bodies under an executable fixed-point guard; refutation witnesses by vm_compute) + extracted-model correspondence with the real _infer_expr_type/_cpp_type/_merge_* and with the declaration lines of the emitted C++ + firmware-vs-CPython value oracle",
+    "level_text": "Theorems C02_* (coq/Props/C02.v) are proved for all expressions, all statement trees (if / elif / else, while, for, tuple assignment, returns at any depth), all paths (every oracle of branch choices and loop counts) and all parser states about Gallina models (coq/Lang/Infer.v, Decl.v, StmtRef.v) of the type-label layer of transpile/parser.py; _partial theorems carry an executable guard, each guard clause has a _refuted witness. The models are run against the real functions (direct calls, exact label and mutated var_types) and against the declared C types in the emitted sketch; the property itself is tested on compiled firmware (mock core) against CPython for programs inside the guard.",
     "level_note": "Trusted: Coq kernel, extraction (ExtrOcamlBasic), OCaml driver, translator plug-in harness/gen/c02_infer.py (builtin call table), harness codecs, g++ and the mock Arduino core as 'device', CPython 3.12 as 'Python', PySem.v as the reference expression semantics (validated against CPython's eval). The theorems are about the models; the correspondence bounds their distance from parser.py.",
     "design_ref": "DESIGN.md section 4 C02, Appendix B.1-B.4",
 }
@@ -1627,7 +1627,22 @@ def run(ctx: C.Ctx):
                  "variables of one numeric kind (top level / main loop).  (d) also draws parameters widened at body level depending on another parameter / "
                  "local / literal (`p = p + q`, `p += q`, `p = p * 0.5`): requested signatures reach their variant through the signature alias, call "
                  "sites shuffled so that the final signature is met before and after the widened one (both counted); comprehensions inside helper "
-                 "bodies shadowing parameters / local accumulators; 5 fixed class representatives."),
+                 "bodies shadowing parameters / local accumulators; 5 fixed class representatives.  "
+                 "(b) now also draws tuple assignments (new / old / repeated names, swaps, an extra value; column 0, nested blocks, defs, main "
+                 "loop; the `__tmp_assign_k` temporaries are compared as a multiset of C types per scope) and calls of user functions from "
+                 "INSIDE function bodies (earlier helpers under new signatures, later helpers, recursion).  "
+                 "(e) control-flow scripts (harness/c02_ctl.py CtlGen: if / elif / else with and without hoisted names, while with a counter, "
+                 "for, augmented assignments, stores in nested blocks, main loop; a few per cent deliberately break the guard: a store of "
+                 "another kind, disagreeing branches, a name read before the line that types it): (e1) the script is rendered INSTRUMENTED "
+                 "and run under CPython, which records every decision (branch index, passes of a while, length of a range) in the order the "
+                 "model's oracle is consumed and every store with its value; exec_prog (extracted) is run along that oracle and must produce "
+                 "the same trace (names, kinds, exact values); (e2) script_guard (extracted) decides which programs the theorem covers; for "
+                 "those, firmware under the mock core vs CPython, every written value compared - a difference is reported as a violation.  "
+                 "(f) one generated helper per program (FnBodyGen: locals, if / for / while blocks, returns at any depth, hoisted locals, "
+                 "augmented assignments) called under 2-3 signatures with boundary arguments: (f1) exec_block on the body from the bound "
+                 "parameters along CPython's recorded path = CPython's stores and returned value; (f2) fn_guard (extracted) per call "
+                 "signature in the parser state before the call; when every signature is inside, firmware vs CPython on the whole program. "
+                 "non-trivial for (e)/(f) = guard-accepted programs whose firmware/CPython comparison covers >= 4 (>= 2) values."),
         "guard": ("expressions: Lang/InferGuard.v guard (no string contagion onto a numeric name, numeric operands, `/` and `**` only with a float "
                   "operand, no unary minus on a bool label, and/or only on bool labels, conditional expression with equal or numeric labels, abs/min/max "
                   "on int/bool labels, uniform or numeric list elements, subscripts of list labels, no tuples). programs (theorem): flat_guard = every "
@@ -1646,7 +1661,15 @@ def run(ctx: C.Ctx):
                   "alike (F-C02-widened-variant-overwritten); every call selects, by C++ overload resolution among the variants that can be "
                   "emitted, the variant the transpiler means (an ambiguous overload does not compile: C06's subject); a Name passed to a helper "
                   "has a label equal to its declared type.  Comprehensions: one generator over range(n), no filter, element int/float/bool, "
-                  "the list is only read by a subscript in mon.write; theorem guard rhs_guard = guard on the element under var_types[target] = int."),
+                  "the list is only read by a subscript in mon.write; theorem guard rhs_guard = guard on the element under var_types[target] = int.  "
+                  "Control flow (theorems C02_decl_covers_script_partial / C02_function_body_covers_partial, oracles (e)/(f)): script_guard / "
+                  "fn_guard of Lang/StmtRef.v, evaluated by the EXTRACTED model: with L the var_types table at the end of the scope, every "
+                  "store (x = e, x op= e, x = [comprehension], each target of a tuple assignment) has e inside the expression guard both under "
+                  "the var_types the transpiler holds at that line and under L, both infer the label L holds for x (typing is a fixed point); "
+                  "x op= e has x declared and op is not @; tuple assignments have as many values as names; a name hoisted out of a loop has no "
+                  "other C type in the shared promotion table (promo_ok); return expressions have a scalar label; for function bodies the "
+                  "names visible at the start keep their label to the end (no parameter is re-labelled) and the body calls no user function "
+                  "(ucf_block).  Reference semantics: no break/continue, the target of a for is unbound after its loop."),
         "unmodelled": [
             "list comprehensions nested inside another operator (len([...]), [...][0], f([...])) stay EOther in Lang/PyAst.v and are labelled int by the "
             "model (the real code labels them list[...]); range() with 2 or 3 arguments and filtered comprehensions; only right-hand sides that ARE a "
@@ -1654,26 +1677,33 @@ def run(ctx: C.Ctx):
             "the constant environment (vars) that _to_c_expr brackets together with var_types around a comprehension target is C03's subject; here it "
             "only enters as an input of correspondence (a') (names bound to constants of every truthiness)",
             "C++ overload resolution between emitted variants (harness/c02_fngen.cxx_pick keeps generated calls unambiguous); it is not part of the Gallina model",
-            "calls to user functions from inside function bodies (recursion, helper calling helper: the re-entrant _ensure_function_variant with its "
-            "_refreshing_functions set) - the statement model runs function bodies with the static function table; covered only by oracles (c) "
-            "(template `twice`) and (d) (generated helpers calling earlier helpers)",
-            "C02_function_result_covers_partial is proved for bodies made of (if-guarded) return statements; returns nested deeper, after assignments "
-            "or inside loops are covered by correspondence (b) and oracle (d)",
-            "tuple assignment / swap temporaries (not in the Gallina model; oracle (c) draws them at top level / in the main loop), try/except bodies, list variables at statement level (append, element assignment), "
-            "function_param_types carried over between re-parses of the same def",
+            "the VALUE theorems about function bodies (C02_function_body_covers_partial, C02_function_result_covers_partial) are stated for "
+            "bodies that call no user function (ucf_block): the reference expression semantics (Lang/PySem.v) has no user-function calls; a "
+            "helper calling a helper is inside the DECLARATION model (parse_function_step: on-demand variants, _refreshing_functions, fuel 24 "
+            "for the nesting depth of on-demand parses) and tied to the code by correspondence (b) and oracles (c) (template `twice`) and (d)",
+            "reference statement semantics (Lang/StmtRef.v): break / continue, try/except, the value of a for target after its loop (in the C++ it "
+            "is scoped to the loop; such a read is an error of the reference execution), reads of never-assigned names; conditions and loop "
+            "bounds are not evaluated by the model - the path is an oracle (all paths are covered by the theorems; the correspondence follows "
+            "the path CPython takes)",
+            "a new name declared at column 0 by a tuple assignment that also re-assigns an old name is emitted as a LOCAL of setup() "
+            "(not a global); the model lists it with the globals (its scope is C05/C06's subject, its type is compared)",
+            "try/except bodies, list variables at statement level (append, element assignment), "
+            "function_param_types carried over between re-parses of the same def, narrower-into-wider stores (a name re-assigned at a "
+            "label BELOW its declared one) stay outside the proved guard: they are covered by oracles (c)/(d) only",
             "_to_c_expr failures (untranslatable right-hand sides abort the parse before typing) - generators only emit translatable expressions",
             "the annotated-return override (override_return) is modelled and refuted at model level, but is unreachable through parse(): RE_DEF does not "
             "match a header with `-> T` and _parse_function rebuilds the header without it",
             "conditions, loop bounds and mon.write arguments are assumed to have no typing effect (validated by (b): they are present in the programs)",
             "C int width (16-bit AVR overflow), float32 rounding beyond the 2 printed decimals, IEEE specials",
-            "Python statement semantics for branches/loops/functions: the declaration theorem is proved for straight-line top-level programs only; "
-            "control flow is covered by correspondence (b) and oracle (c)",
+            "user-function calls in scripts covered by C02_decl_covers_script_partial (script_guard rejects def items; the theorem is for "
+            "scripts without helpers, helpers are covered per variant by C02_function_body_covers_partial)",
         ],
         "trusted_base": C.COMMON_TRUSTED + [
             "harness/gen/c02_infer.py (regenerates coq/Gen/InferTables.v: _BUILTIN_CALL_RETURN_TYPES, annotation labels; fail-closed)",
             "coq/Lang/PySem.v as the meaning of Python expressions (validated against CPython eval by harness/pysem_check.py)",
             "harness/c02_fngen.py (generator, the abstract kind interpreter that keeps generated helper programs inside the guard, cxx_pick: a "
             "three-rank model of C++ overload resolution used only to DROP generated programs)",
+            "harness/c02_ctl.py + harness/impl/c02_ctl_impl.py (generators; the instrumented rendering that makes CPython record its decisions and stores)",
             "harness/pyast_wire.py + label/program codecs in harness/props/c02.py; regex extraction of declaration lines from the emitted sketch (harness/impl/c02_impl.py cpp_decls)",
             "mock Arduino core (mock/) + g++ -O0 as 'the device'; CPython 3.12 + harness/impl/pyrun_impl.py as 'what Python holds'",
             "value-level comparison of Serial lines (same_value_line): bool = 0/1, numbers to 0.0051 when the device prints decimals",
@@ -1682,5 +1712,6 @@ def run(ctx: C.Ctx):
     ctx.assumptions += [
         "floats are exact rationals in the models; generated float literals are dyadic with small denominators",
         "C int is unbounded in the models (no-overflow guard of C01); generated values stay far below 2^31",
-        "theorems are about the Gallina models Lang/Infer.v and Lang/Decl.v; their distance from parser.py is bounded by correspondences (a) and (b)",
+        "theorems are about the Gallina models Lang/Infer.v, Lang/Decl.v and Lang/StmtRef.v; their distance from parser.py / CPython is bounded by correspondences (a), (b), (e1), (f1)",
+        "a script's conditions and loop bounds may evaluate to anything: the covering theorems quantify over every oracle",
     ]
